@@ -588,6 +588,7 @@ pub fn op_alphabet() -> Vec<Op> {
         Op::Remove(vec![1], 2),
         Op::Merge(vec![], vec![(0, true)]),
         Op::Merge(vec![], vec![(0, false), (1, true)]),
+        Op::Merge(vec![], vec![(0, false)]),
         Op::Merge(vec![1], vec![(2, true), (1, true)]),
         Op::Multiple(vec![1]),
         Op::Text(vec![], true),
